@@ -25,6 +25,15 @@ from ..errors import UnknownFormError
 from ..utils.node import Node
 
 
+def _unpickle(name, cls, state):
+    """Unpickling helper (see Form.__reduce__)"""
+    if name.lower() in _cache:
+        return _cache[name.lower()]
+    obj = cls.__new__(cls)
+    obj.__dict__.update(state)
+    return obj
+
+
 class Form(Node):
     """Base class for orbital form definition"""
 
@@ -52,6 +61,11 @@ class Form(Node):
 
     def __str__(self):  # pragma: no cover
         return self.name
+
+    def __reduce__(self):
+        # Forms are unique objects, compared by identity: unpickling gives
+        # back the existing one, instead of a copy of the whole graph
+        return _unpickle, (self.name, self.__class__, self.__dict__.copy())
 
     def __call__(self, orbit, new_form):
         """Gives the result of the transformation without in-place modifications
